@@ -156,6 +156,44 @@ theorem deregistered_harmless (tr : List Act) (i d : Nat)
   have hex := hR.reg.dereg_exited d i hdq
   exact ⟨hex, hR.reg.dereg_unreg d i hdq, exited_inert hR.all hex⟩
 
+/-- **a stop reaches every arbiter registered in front of it — also a later stop, after the exit code
+has long been delivered.**  For the history `stop(c1); Arbiter::new(); stop(c2)` (queue
+`… Exit c1 … Register i … Exit c2 …`): once the controller has handled the second `Exit`, a code has
+been delivered (decided by an `Exit` in front) *and* arbiter `i`'s loop has ended or a `Stop` is
+buffered in its channel — the registry goes on being kept after the one-shot has fired. -/
+theorem late_arbiter_stopped_by_later_exit (tr : List Act) (i q r p : Nat) (c1 c2 : Int)
+    (hq : (run init tr).syssent[q]? = some (SysCmd.exit c1))
+    (hr : (run init tr).syssent[r]? = some (SysCmd.register i))
+    (hp : (run init tr).syssent[p]? = some (SysCmd.exit c2))
+    (hqr : q < r) (hrp : r < p) (hd : p < (run init tr).sysDone) :
+    (∃ c, runWithCode (run init tr) = some c) ∧
+    (((run init tr).arbs i).ended = true ∨ HasStop ((run init tr).arbs i)) :=
+  ⟨exit_handled_delivers tr q c1 hq (by omega), stop_enqueued_for_live tr i r p c2 hr hp hrp hd⟩
+
+/-- **whatever was queued before the controller ran.**  Take any schedule — in particular one in
+which the client queues a whole sequence of `stop_with_code` and `Arbiter::new` calls, in any order
+and number, before the controller is polled for the first time — and let the controller then handle
+the commands buffered in its queue (one poll does that: it loops until the channel is empty).  Then
+every arbiter whose `Register` is in front of *some* `Exit` in the queue has ended or has a `Stop`
+buffered, and the code delivered is that of the first `Exit` in the queue. -/
+theorem queued_sequence_handled (tr : List Act) (i r p : Nat) (c : Int)
+    (hr : (run init tr).syssent[r]? = some (SysCmd.register i))
+    (hp : (run init tr).syssent[p]? = some (SysCmd.exit c)) (hrp : r < p) :
+    let drain := List.replicate ((run init tr).syssent.length - (run init tr).sysDone) Act.ctrl
+    (((run init (tr ++ drain)).arbs i).ended = true ∨ HasStop ((run init (tr ++ drain)).arbs i)) ∧
+    runWithCode (run init (tr ++ drain)) = firstExit (run init tr).syssent := by
+  intro drain
+  have hle : (run init tr).sysDone ≤ (run init tr).syssent.length := (reach_init.run tr).code.done_le
+  have hc := ctrl_catches_up ((run init tr).syssent.length - (run init tr).sysDone) (run init tr) (by omega)
+  have hrun : run init (tr ++ drain) = run (run init tr) drain := run_append _ _ _
+  have hlt : p < (run init tr).syssent.length := (List.getElem?_eq_some_iff.mp hp).1
+  have hdone : (run init (tr ++ drain)).sysDone = (run init tr).syssent.length := by
+    rw [hrun, hc.1]; omega
+  have hsent : (run init (tr ++ drain)).syssent = (run init tr).syssent := by rw [hrun, hc.2]
+  refine ⟨stop_enqueued_for_live (tr ++ drain) i r p c (by rw [hsent]; exact hr) (by rw [hsent]; exact hp)
+    hrp (by rw [hdone]; exact hlt), ?_⟩
+  rw [run_with_code_is_first_exit, hdone, hsent, List.take_length]
+
 /-- **T1**: the decisive source lines still have the shape the model's rules were written from
 (regenerated from /repo by tools/spans/rt.py on every check) -/
 theorem source_shape : sourceShapeC09 = true := by decide
@@ -194,5 +232,17 @@ example : joinReturns (run (run init demo) [.runner sysArbId, .close sysArbId, .
 -- in a process whose first System hosted no arbiters) is registered, stopped and joined like any other
 example : joinReturns (run init [.newArb 1, .newArb 2, .send 2 .stop, .runner 2, .close 2, .fin 2,
     .ctrl, .ctrl, .ctrl, .ctrl, .sysSend 3, .ctrl, .runner 1, .close 1, .fin 1]) 1 = true := by decide
+
+-- the history of the round-2 finding: `stop 1; Arbiter::new; stop 2`, all queued before the controller's
+-- first step (it has not even handled the system arbiter's Register); the controller then drains its queue
+def lateDemo : List Act := [.sysSend 1, .newArb 0, .sysSend 2]
+example : (run init lateDemo).sysDone = 0 ∧
+    (run init lateDemo).syssent = [.register sysArbId, .exit 1, .register 0, .exit 2] := by decide
+example : runWithCode (run init (lateDemo ++ List.replicate 4 .ctrl)) = some 1 := by decide
+example : ((run init (lateDemo ++ List.replicate 4 .ctrl)).arbs 0).sent = [.stop] := by decide
+-- … whereas an arbiter registered behind the last Exit is left alone (an orphan the client must stop)
+example : ((run init ([.sysSend 1, .newArb 0] ++ List.replicate 3 .ctrl)).arbs 0).sent = [] := by decide
+example : joinReturns (run init (lateDemo ++ List.replicate 4 .ctrl ++ [.runner 0, .close 0, .fin 0])) 0 = true := by
+  decide
 
 end ActixNet.C09
